@@ -40,32 +40,59 @@ func VerifC02Header() {
 	zzverif.WaitIdle() // the sequencer is now stuck at the gate
 	r := zzverif.U64("R")
 	zzverif.Assume(zzverif.Or(r == 0, zzverif.And(r > w.base, r <= w.dealt)))
-	switch zzverif.Choose("read", 3) {
-	case 0:
-		g, err := w.b.Get(vCtx(), &proto.GetRequest{Key: key, Revision: r})
-		zzverif.Assert(err == nil, "get: no error")
-		if g.Kv != nil {
-			zzverif.Assert(g.Header.Revision >= g.Kv.Revision, "get: header >= kv revision")
-			zzverif.Cover("get-kv")
+	readable := w.b.GetCurrentRevision() // what the node has reported readable so far
+	what := zzverif.Choose("read", 3)
+	// read issues the chosen read and returns what came back, flattened
+	read := func(when string) (kvs []*proto.KeyValue) {
+		switch what {
+		case 0:
+			g, err := w.b.Get(vCtx(), &proto.GetRequest{Key: key, Revision: r})
+			zzverif.Assert(err == nil, "get: no error")
+			if g.Kv != nil {
+				zzverif.Assert(g.Header.Revision >= g.Kv.Revision, "get: header >= kv revision")
+				zzverif.Cover("get-kv")
+				kvs = append(kvs, g.Kv)
+			}
+		case 1:
+			l, err := w.b.List(vCtx(), &proto.RangeRequest{Key: vRanges[0][0], End: vRanges[0][1], Revision: r})
+			zzverif.Assert(err == nil, "list: no error")
+			for _, kv := range l.Kvs {
+				zzverif.Assert(l.Header.Revision >= kv.Revision, "list: header >= kv revision")
+				if resp.Succeeded && kv.Revision == resp.Header.Revision {
+					zzverif.Cover("list-sees-unreported-write")
+				}
+			}
+			kvs = l.Kvs
+		default:
+			l, err := w.b.List(vCtx(), &proto.RangeRequest{Key: vRanges[0][0], End: vRanges[0][1], Revision: r, Limit: 1})
+			zzverif.Assert(err == nil, "limited list: no error")
+			for _, kv := range l.Kvs {
+				zzverif.Assert(l.Header.Revision >= kv.Revision, "limited list: header >= kv revision")
+			}
+			kvs = l.Kvs
 		}
-	case 1:
-		l, err := w.b.List(vCtx(), &proto.RangeRequest{Key: vRanges[0][0], End: vRanges[0][1], Revision: r})
-		zzverif.Assert(err == nil, "list: no error")
-		for _, kv := range l.Kvs {
-			zzverif.Assert(l.Header.Revision >= kv.Revision, "list: header >= kv revision")
-			if resp.Succeeded && kv.Revision == resp.Header.Revision {
-				zzverif.Cover("list-sees-unreported-write")
+		if r != 0 {
+			for _, kv := range kvs {
+				zzverif.Assert(kv.Revision <= r, "a read at revision R never returns a version newer than R ("+when+")")
 			}
 		}
-	default:
-		l, err := w.b.List(vCtx(), &proto.RangeRequest{Key: vRanges[0][0], End: vRanges[0][1], Revision: r, Limit: 1})
-		zzverif.Assert(err == nil, "limited list: no error")
-		for _, kv := range l.Kvs {
-			zzverif.Assert(l.Header.Revision >= kv.Revision, "limited list: header >= kv revision")
-		}
+		return kvs
 	}
+	first := read("while a later write is stored but not yet readable")
 	gate.mu.Unlock()
 	zzverif.WaitIdle()
 	zzverif.Assert(w.b.GetCurrentRevision() == w.dealt, "committed revision reaches the highest dealt revision")
+	if r != 0 && r <= readable {
+		// a revision the node had reported readable: the same read gives the same answer again
+		again := read("asked again")
+		zzverif.Assert(len(again) == len(first), "the same read at a readable revision gives the same answer when asked again: number of kvs")
+		for i := range first {
+			if i < len(again) {
+				zzverif.Assert(zzverif.BytesEq(first[i].Key, again[i].Key) && zzverif.BytesEq(first[i].Value, again[i].Value) && first[i].Revision == again[i].Revision,
+					"the same read at a readable revision gives the same answer when asked again")
+			}
+		}
+		zzverif.Cover("asked-again")
+	}
 	zzverif.Cover("done")
 }
